@@ -794,30 +794,25 @@ for _case in _SUB_PARAM:
 # is left alone by this step.  The glyph-name step that follows (process_glyph_names, C11) calls none of the libraries
 # (its frame does not contain the log) and keeps the table set, so the table of process_cff is the table of process.
 CLASSES["PostProcessor"].fields.setdefault("info", Opt(Dict(STR, STR)))
-_PROCESS_MOD = sorted(set(_PCFF_MOD) | set(CONTRACTS[f"{PP}.process_glyph_names"].modifies))
+# the glyph-name step is used through its FRAME contract (contracts/c11.py: no precondition, all flavours): it writes names only
+_PGN_FRAME = f"{PP}.process_glyph_names#frame"
+_PROCESS_MOD = sorted(set(_PCFF_MOD) | set(CONTRACTS[_PGN_FRAME].modifies))
 _OPT_KINDS = {"bool": (BOOL, "optimizeCFF", [False, True]), "level": (INT, "optimizeCFF >= 2", [-1, 0, 1, 2, 3, 7])}
 
 
-def renames_cff1(T, K, U):
-    """C11's contract of process_glyph_names does not cover renaming a font that has a 'CFF ' table (charset / CharStrings are
-    rewritten by a dict comprehension with computed keys, see notes/C11.md); it is called AFTER the CFF step, when the font
-    has a 'CFF ' table iff it had a CFF/CFF2 table and the output format is 1.  K, U: clause texts of keepGlyphNames / useProductionNames."""
-    return f"(({K}) and ({U}) and {T.has_table0} and {T.OUT0} == 1)"
-
-
-def process_contract_parts(T, case, K, U):
+def process_contract_parts(T, case):
     old_has = "old(" + T.has_table0 + ")"
     ens = {k: f"implies({old_has}, {v})" for k, v in T.ensures(case).items()}
     # a font without CFF/CFF2 table is none of this step's business
     ens["no-cff-table-nothing-to-do"] = f"implies(not {old_has}, " + T.no_call() + ")"
     raises = {"ValueError": f"{T.has_table0} and ({T.value_error(case)})", "NotImplementedError": f"{T.has_table0} and {T.not_implemented(case)}"}
-    return ens, raises, f"not {renames_cff1(T, K, U)}"
+    return ens, raises
 
 
 for _kind, (_oty, _opt, _) in _OPT_KINDS.items():
     _T = Table(_opt, "self.otf", "self.otf")
     for _case in _SUB_PARAM:
-        _ens, _raises, _req = process_contract_parts(_T, _case, c11._K, c11._U)
+        _ens, _raises = process_contract_parts(_T, _case)
         contract(
             f"{PP}.process", name=f"{_kind}/{_case}", props=["C12"],
             params={"self": Ref("PostProcessor"), "useProductionNames": Opt(BOOL), "optimizeCFF": _oty, "cffVersion": Opt(INT), "subroutinizer": _SUB_PARAM[_case]},
@@ -826,9 +821,8 @@ for _kind, (_oty, _opt, _) in _OPT_KINDS.items():
                 # compileOTF / compileTTF reach process through BaseCompiler.compile -> postprocess(font, ufo, glyphSet): info=None
                 # (only variable-font builds pass fontinfo overrides; apply_fontinfo is C16's InfoCompiler)
                 "self.info is None",
-                _req,
             ],
-            calls={f"{PP}.process_cff": f"{PP}.process_cff#{_case}"},
+            calls={f"{PP}.process_cff": f"{PP}.process_cff#{_case}", f"{PP}.process_glyph_names": _PGN_FRAME},
             modifies=_PROCESS_MOD,
             raises=_raises,
             ensures={**_ens, "returns-the-font": "result.font_id == self.otf_id"},
@@ -1061,20 +1055,19 @@ CONTRACTS[f"{BC}.compileOutlines#C12"].runtime = Runtime(
 
 # ---- BaseCompiler.postprocess: optimizeCFF / cffVersion / subroutinizer / useProductionNames reach PostProcessor.process -------------
 # (static builds: BaseCompiler.compile calls self.postprocess(font, ufo, glyphSet), i.e. info=None)
-_K_PP, _U_PP = c11.keep_and_use(ufo="ufo", arg="self.useProductionNames", ps="ufo.lib.get('public.postscriptNames')")
 _T_POST = Table("self.optimizeCFF >= 2", "ttf", "result", ver="self.cffVersion", sub="self.subroutinizer", log="ttf.libs.calls")
 _SUB_IS = {"default": "self.subroutinizer is None", "cffsubr": "self.subroutinizer == 'cffsubr'", "compreffor": "self.subroutinizer == 'compreffor'",
            "unknown": "self.subroutinizer is not None and self.subroutinizer != 'cffsubr' and self.subroutinizer != 'compreffor'"}
 _POSTPROCESS_MOD = sorted(set(_PROCESS_MOD) | set(CONTRACTS[f"{PP}.__init__"].modifies))
 
 for _case in _SUB_PARAM:
-    _ens, _raises, _req = process_contract_parts(_T_POST, _case, _K_PP, _U_PP)
+    _ens, _raises = process_contract_parts(_T_POST, _case)
     contract(
         f"{BC}.postprocess", name=f"C12/{_case}", props=["C12"],
         params={"self": Ref("C12Compiler"), "ttf": Ref("PPFont"), "ufo": Ref("PPUfo"), "glyphSet": Ref("PPGlyphSet"), "info": Const(None)},
         returns=Ref("PPFont"),
         globals=_PRUNE_GLOBALS,
-        requires=[_SUB_IS[_case], _req],
+        requires=[_SUB_IS[_case]],
         calls={f"{PP}.process": f"{PP}.process#level/{_case}"},
         modifies=_POSTPROCESS_MOD,
         raises=_raises,
